@@ -194,6 +194,8 @@ func checkC12(c *Ctx) {
 		c.Case("pbin:"+string(prog), true)
 	})
 
+	checkC12IllegalEverywhere(c)
+
 	// ---- (3) consistency on every error of arbitrary generated programs (binding B):
 	// the quoted line is line N of the program text (JqText.Lines, transcribed: split on LF).
 	nr := 8000
@@ -233,4 +235,69 @@ func checkC12(c *Ctx) {
 		"pre-fillers x fault x post-fillers x final-newline; a case is non-trivial when it has more than one line (1) / always (2); distinct by text")
 	c.Set("checker_cmd", "tlc MC_Text / MC_TextProg; replay through Lexer.GetLineAndCol and lang.EvalProgram")
 	c.Set("bounds", map[string]int{"MaxLen": maxLen, "MaxPre": maxPre, "MaxPost": maxPost})
+}
+
+// An illegal character at every token boundary of multi-line host programs: the error is a syntax error
+// reported exactly on that character, whatever token precedes it (a comma, a keyword, a ";", an opening
+// bracket ...).  Line and column of the spliced byte follow JqText (LineOf / ColOf: lines end at LF, the
+// column is the byte offset within the line), transcribed here as byte counting.
+var c12Hosts = []string{
+	"function f ( a , b ) {\n return a + b\n}\nBEGIN {\n x = [ 1 , 2 ]\n print f ( 1 , 2 ) , x [ 0 ]\n}",
+	"BEGIN {\n o = { k : 1 , j : [ 2 ] } ; n = 0\n for ( k , v in o ) {\n  n ++\n  if ( n > 1 ) {\n   break\n  } else {\n   continue\n  }\n }\n}",
+	"{\n r = match ( $ ) { 1 , 2 => \"low\" , [ p , q ] => p , _ => {\n  next\n } }\n print r ; print $index\n}\nEND {\n exit\n}",
+	"BEGIN {\n for ( i = 0 ; i < 2 ; i ++ ) {\n  while ( ! done ) {\n   done = i >= 0 && true || false\n  }\n }\n printf ( \"%s %v\\n\" , \"a\" , - 1 )\n}",
+	"$ . a > 0 {\n s = $ . a . b [ 0 ] . length ( )\n t = s is number\n u = \"x\" ~ /x+/\n}",
+}
+
+func checkC12IllegalEverywhere(c *Ctx) {
+	pool := c.Pool()
+	var jobs []Job
+	type exp struct{ line, col int }
+	var want []exp
+	for _, host := range c12Hosts {
+		// token boundaries = the blanks and newlines of the host text (tokens are written apart)
+		for i := 0; i <= len(host); i++ {
+			if i < len(host) && host[i] != ' ' && host[i] != '\n' {
+				continue
+			}
+			if !c.Thorough() && (i+len(host))%2 != int(c.Seed)%2 {
+				continue
+			}
+			for _, ill := range []string{"@", "&", "?"} {
+				var text string
+				var off int
+				switch {
+				case i == len(host):
+					text, off = host+" "+ill, i+1
+				case host[i] == '\n':
+					text, off = host[:i]+" "+ill+host[i:], i+1 // at the end of the line
+				default:
+					text, off = host[:i]+" "+ill+host[i:], i+1
+				}
+				line, col := 1, 0
+				for j := 0; j < off; j++ {
+					if text[j] == '\n' {
+						line++
+						col = 0
+					} else {
+						col++
+					}
+				}
+				jobs = append(jobs, Job{Kind: "run", Prog: []byte(text), Files: []FileIn{{Name: "in.json", Data: []byte("[1]")}}, Budget: 100000})
+				want = append(want, exp{line, col})
+				if ill != "@" && c.Quick {
+					break
+				}
+			}
+		}
+	}
+	pool.Map(jobs, func(i int, r Result) {
+		lines := splitLines(jobs[i].Prog)
+		if r.Class != "syntax" || r.Line != want[i].line || r.Col != want[i].col || r.Line < 1 || r.Line > len(lines) || !bytes.Equal(r.SrcLine, lines[r.Line-1]) {
+			c.Violation("illegal-char-position", map[string]any{"program": string(jobs[i].Prog), "expected_line": want[i].line, "expected_col": want[i].col, "got_class": r.Class, "got_line": r.Line, "got_col": r.Col,
+				"got_src": string(r.SrcLine), "got_msg": r.ErrMsg, "why": "an illegal character is reported as a syntax error exactly on it, whatever token precedes it"})
+			return
+		}
+		c.Case("illegal:"+string(jobs[i].Prog), true)
+	})
 }
